@@ -239,3 +239,98 @@ CONTRACTS = CONTRACTS + ANY_TAGGED
 for _c in [CHOICE_SET] + CHOICE_CLEAR:
     _c.bounded = 'CHOICE types of exactly %d alternatives, every selection state and position' % NALT
 NATIVE_SET.bounded = 'records of exactly 3 members, every OPTIONAL / set / is-value pattern'
+
+
+# ---- native SetEncoder / SequenceEncoder.encode for records of ANY size (C17) ----------------------------------------------------
+from pyvc.core import RecSeqV as _RecSeqV, PRecSeq as _PRecSeq, PIntTuple as _PIntTuple, I as _I, S as _S
+from contracts.univ_containers import sym_dict, idof, element as _element
+_j = z3.Int('j!q')
+N_ISSET = z3.Function('member.isSet', _I, z3.BoolSort())
+N_ISVAL = z3.Function('isValueOf', _I, z3.BoolSort())          # the same symbol the container models use
+N_PYVAL = z3.Function('python.value.of', _I, _I)
+
+
+class _Members(_RecSeqV):
+    """value.items(): (name, component) pairs in declaration order; an unset member shows as a placeholder"""
+
+    def elem(self, i):
+        name, ident, ph = self.cols[0][i], self.cols[1][i], self.cols[2][i]
+        return Tup([name, _element(z3.If(N_ISSET(i), ident, ph))])
+
+
+def _n_record(ex, env):
+    decl = env['declaration']          # columns: isOptional (0/1), name
+    comps = env['componentIds'].z
+    phs = env['placeholderIds'].z
+    n = decl.length
+    ex.assume(And(z3.Length(comps) == n, z3.Length(phs) == n))
+    # names are distinct (NamedTypes refuses duplicates), optional flags are booleans
+    i2 = z3.Int('i!q')
+    ex.assume(z3.ForAll([_j, i2], z3.Implies(And(_j >= 0, i2 > _j, i2 < n), decl.cols[1][_j] != decl.cols[1][i2])))
+    ex.assume(z3.ForAll([_j], z3.Implies(And(_j >= 0, _j < n), Or(decl.cols[0][_j] == 0, decl.cols[0][_j] == 1))))
+
+    def get(ex2, self, idx, default=NOVALUE, instantiate=True):
+        if instantiate is not False:
+            raise Unsupported('instantiating read')
+        i = toint(idx)
+        if ex2.choose(N_ISSET(i), 'member-set'):
+            return _element(comps[i])
+        return default
+    named = Obj('NamedTypes', {'__truthy__': True, 'namedTypes': decl}, name='namedTypes')
+    return Obj('Sequence', {'isInconsistent': False, 'componentType': named},
+               {'items': lambda ex2, self: _Members([decl.cols[1], comps, phs], names=('name', '__id__', 'ph')),
+                'getComponentByPosition': get}, name='value')
+
+
+def _n_set(ex, *a):
+    def add(ex2, self, item):
+        self.fields['arr'] = z3.Store(self.fields['arr'], toint(item), True)
+    return Obj('set', {'arr': z3.K(_I, False)}, {'add': add, '__contains__': lambda ex2, self, k: z3.Select(self.fields['arr'], toint(k))},
+               name='absent')
+
+
+def _n_encode(ex, v, **options):
+    return Obj('PyValue', {'__id__': N_PYVAL(idof(v))}, name='py')
+
+
+def _left_out(decl, comps, i):
+    return And(decl.cols[0][i] == 1, Or(Not(N_ISSET(i)), Not(N_ISVAL(comps[i]))))
+
+
+def _absent_upto(ex, absent, decl, comps, upto):
+    arr = absent.fields['arr']
+    cz = comps.z
+    return And(z3.ForAll([_j], z3.Implies(And(_j >= 0, _j < toint(upto)), z3.Select(arr, decl.cols[1][_j]) == _left_out(decl, cz, _j))),
+               z3.ForAll([_j], z3.Implies(z3.Select(arr, _j), z3.Exists([z3.Int('w!q')], And(z3.Int('w!q') >= 0, z3.Int('w!q') < toint(upto),
+                                                                                            decl.cols[1][z3.Int('w!q')] == _j)))))
+
+
+def _mapped_upto(ex, d, decl, comps, upto):
+    p, ids = d.fields['present'], d.fields['ids']
+    cz = comps.z
+    w = z3.Int('w!q')
+    return And(z3.ForAll([_j], z3.Implies(And(_j >= 0, _j < toint(upto)),
+                                           And(z3.Select(p, decl.cols[1][_j]) == Not(_left_out(decl, cz, _j)),
+                                               z3.Implies(And(Not(_left_out(decl, cz, _j)), N_ISSET(_j)),
+                                                          z3.Select(ids, decl.cols[1][_j]) == N_PYVAL(cz[_j]))))),
+               z3.ForAll([_j], z3.Implies(z3.Select(p, _j), z3.Exists([w], And(w >= 0, w < toint(upto), decl.cols[1][w] == _j)))))
+
+
+NATIVE_SET_N = Contract(
+    id='native.encoder::SetEncoder.encode[any-size]', file=N, qual='SetEncoder.encode', properties=['C17'],
+    params=dict(declaration=_PRecSeq(2, names=('isOptional', 'name')), componentIds=_PIntTuple(), placeholderIds=_PIntTuple(),
+                self=PObj('SetEncoder', protoDict=PConst(FnV(lambda ex: sym_dict(z3.K(_I, False), z3.K(_I, z3.IntVal(0)), z3.IntVal(0), name='{}'),
+                                                             'dict'))),
+                value=PDerived(_n_record), encodeFun=PConst(FnV(_n_encode, 'encodeFun')), options=POptions()),
+    globals={'set': FnV(_n_set, 'set'), 'absent_upto': FnV(_absent_upto, 'absent_upto'), 'mapped_upto': FnV(_mapped_upto, 'mapped_upto')},
+    loops={0: Loop(index='k', invariant=['absent_upto(absent, declaration, componentIds, k)'], havoc_fields=['absent.arr']),
+           1: Loop(index='m', invariant=['mapped_upto(substrate, declaration, componentIds, m)',
+                                         'absent_upto(absent, declaration, componentIds, len(declaration))'],
+                   havoc_fields=['substrate.present', 'substrate.ids', 'substrate.count'])},
+    ensures=[
+        # the python mapping holds exactly the members that are present: an OPTIONAL member that is unset (or holds a
+        # valueless placeholder) is left out; every other member maps to the conversion of its component
+        ('keys-are-the-present-members', 'mapped_upto(result, declaration, componentIds, len(declaration))')],
+    note='records of any size; names are distinct (NamedTypes), components known by identity, encodeFun is the recursive '
+         'conversion (assumed)')
+CONTRACTS = CONTRACTS + [NATIVE_SET_N]
